@@ -138,15 +138,32 @@ def r01_3(ctx):
     tgt = {v: t for v, t in sw["targets"]}
     y_of = {}
     all_calls = ser_body.calls()
+    def role_of(var):
+        """Seq / Map / String / Bytes by payload type; scalar variants keep their own name."""
+        tys = [f_["ty"] for f_ in var["fields"]]
+        if len(tys) == 1:
+            t0 = tys[0]
+            if t0.startswith("std::vec::Vec<(" + adt_name):
+                return "Map"
+            if t0.startswith("std::vec::Vec<" + adt_name):
+                return "Seq"
+            if t0.startswith("std::borrow::Cow<") and t0.rstrip(">").endswith("str"):
+                return "String"
+            if t0.startswith("std::borrow::Cow<") and "[u8]" in t0:
+                return "Bytes"
+        return var["name"]
+
+    roles = {var["name"]: role_of(var) for var in adt["variants"]}
     for var in adt["variants"]:
         idx, vn = var["idx"], var["name"]
+        role = roles[vn]
         if idx not in tgt:
             ctx.ob(f"out:{vn}:arm", False, site(ser_body), "variant has no arm in Serialize")
             continue
         dom = [(bb, t) for bb, t in all_calls if ser_body.edge_dominates(0, idx, tgt[idx], bb)]
         sers = [(bb, t) for bb, t in dom if (fn_of(t) or {}).get("trait") in ("serde::Serializer", "serde::Serialize", "serde::ser::SerializeMap", "serde::ser::SerializeSeq")]
         names = [fn_of(t)["name"] for _, t in sers]
-        if vn in ("Seq", "String", "Bytes"):
+        if role in ("Seq", "String", "Bytes"):
             ok = names == ["serialize"]
             if ok:
                 bb, t = sers[0]
@@ -154,7 +171,7 @@ def r01_3(ctx):
                 ok = any(s[0] == "downcast" and s[1] == vn for s in tr.steps) and not [s for s in tr.steps if s[0] not in ("use", "ref", "deref", "field", "downcast")]
             y_of[vn] = "serialize(" + var["fields"][0]["ty"] + ")" if ok else None
             ctx.ob(f"out:{vn}:delegates-to-payload", ok, site(ser_body, tgt[idx]), f"serialises the {vn} payload through its own Serialize impl" if ok else f"calls {names}")
-        elif vn == "Map":
+        elif role == "Map":
             # evaluated on the arm with same-crate helpers inlined (the loop may live in a helper)
             msup = Super(lib, ser_body, depth=2)
             arm_edge = (((), 0), idx, ((), tgt[idx]))
@@ -195,10 +212,10 @@ def r01_3(ctx):
             ctx.ob(f"compose:{name}", False, value["self_ty"], "visit method does not build a Value")
             continue
         if x in ("borrowed_str", "str", "string"):
-            ok = variant == "String"
+            ok = roles.get(variant) == "String"
             det = f"{name} -> Value::{variant}"
         elif x in ("borrowed_bytes", "bytes", "byte_buf"):
-            ok = variant == "Bytes"
+            ok = roles.get(variant) == "Bytes"
             det = f"{name} -> Value::{variant}"
         else:
             y = y_of.get(variant)
@@ -206,9 +223,9 @@ def r01_3(ctx):
             det = f"{name} -> Value::{variant} -> {y}"
         ctx.ob(f"compose:{name}", ok, value["self_ty"], det)
     # collection payload types: plain vectors in arrival order
-    ft = {v["name"]: [f["ty"] for f in v["fields"]] for v in adt["variants"]}
-    seq_ok = ft.get("Seq", [""])[0].startswith("std::vec::Vec<transcode::value::Value")
-    map_ok = ft.get("Map", [""])[0].startswith("std::vec::Vec<(transcode::value::Value")
+    ft = {roles[v["name"]]: [f["ty"] for f in v["fields"]] for v in adt["variants"]}
+    seq_ok = ft.get("Seq", [""])[0].startswith("std::vec::Vec<" + adt_name)
+    map_ok = ft.get("Map", [""])[0].startswith("std::vec::Vec<(" + adt_name)
     ctx.ob("types:Seq-is-Vec", seq_ok, adt_name, f"Seq payload type {ft.get('Seq')}")
     ctx.ob("types:Map-is-Vec-of-pairs", map_ok, adt_name, f"Map payload type {ft.get('Map')}")
     # visit_seq / visit_map push in arrival order and do nothing else to the vector
